@@ -831,7 +831,9 @@ impl Point {
             let v = x & m & 31;              // low 5 bits if x odd, or 0
             let c = (v & 16) << 1;           // carry (0 or 32)
             sd[i] = v.wrapping_sub(c) as i8;
-            y = y.wrapping_sub(v as u128).wrapping_add(c as u128) >> 1;
+            // y - v is even; halve it before adding the carry, so that the
+            // computation cannot overflow when n is close to 2^128.
+            y = (y.wrapping_sub(v as u128) >> 1).wrapping_add((c >> 1) as u128);
         }
         sd
     }
